@@ -213,9 +213,6 @@ Fixpoint rfc_enc (atstart : bool) (m : bytes) : bytes :=
   end.
 Definition rfc_encode (m : bytes) : bytes := rfc_enc true m.
 
-(* last byte is LF; [d] is the answer for the empty string *)
-Fixpoint ends_lf (d : bool) (m : bytes) : bool :=
-  match m with [] => d | c :: m' => ends_lf (c =? LF) m' end.
 Definition lf_terminated (m : bytes) : bool := ends_lf true m.
 
 (* ---------------------------------------------------------------- oracles *)
